@@ -336,6 +336,12 @@ pub fn run_c14(sc: &HistSc, st: &mut Stats) -> super::c06::HistOutcome {
                 let what = format!("{} vs near copy ({}) {}", show(&obs), how, show(&e));
                 if let Some(v) = must_differ(&regs[r], &other, &what) { return HistOutcome { violation: Some(v), outcome: d.finish(), nontrivial }; }
                 if let Some(v) = must_differ(&Value::Object(regs[r].clone()), &Value::Object(other.clone()), &format!("Value::Object of {}", what)) { return HistOutcome { violation: Some(v), outcome: d.finish(), nontrivial }; }
+                // the same pair one level down: below an array, and as a member value of another object
+                // (a comparison may treat what it reaches through a container differently)
+                let (wa, wb) = (Value::Array(vec![Value::Null, Value::Object(regs[r].clone())].into()), Value::Array(vec![Value::Null, Value::Object(other.clone())].into()));
+                if let Some(v) = must_differ(&wa, &wb, &format!("Value::Array around {}", what)) { return HistOutcome { violation: Some(v), outcome: d.finish(), nontrivial }; }
+                let (oa, ob) = (Object::from_vec(vec![Entry::new(Key::from("w"), wa)]), Object::from_vec(vec![Entry::new(Key::from("w"), wb)]));
+                if let Some(v) = must_differ(&oa, &ob, &format!("an object holding the Value::Array around {}", what)) { return HistOutcome { violation: Some(v), outcome: d.finish(), nontrivial }; }
                 if pool.len() < 10 && rng.chance(1, 3) { pool.push(Value::Object(other)); }
             }
         }
